@@ -91,7 +91,7 @@ def main(argv):
             else:
                 viol.append(inst)
     seen_keys = {(i["rule"], i["key"]) for i, _ in kf}
-    stale = [k for kk, k in kset.items() if kk not in seen_keys]
+    stale = [k for kk, k in kset.items() if kk not in seen_keys and kk[0] in ctx.rule_doc]  # only rules evaluated in this tier
 
     rdir = os.path.join(out_root, "reports", pid)
     os.makedirs(rdir, exist_ok=True)
